@@ -251,8 +251,29 @@ class ThrowModel:
                     if len(cargs) == 2 and self._same_ref(cargs[0], S) and self._same_ref(cargs[1], P) \
                             and self._is_starts_with(callee):
                         return True
+                # the same test written out (or inlined by the fact normalisation): S.compare(0, P.size(), P) == 0
+                if self._is_prefix_test(cond, S, P):
+                    return True
             n = p
         return False
+
+    def _is_prefix_test(self, e, S, P):
+        from .facts import call_object
+        if e is None or e.get("k") != "BinaryOperator" or e.get("op") != "==":
+            return False
+        lhs, rhs = strip_all(e["c"][0]), strip_all(e["c"][1])
+        if rhs.get("k") != "IntegerLiteral" or rhs.get("v") != "0":
+            return False
+        if lhs.get("k") != "CXXMemberCallExpr" or not (lhs.get("fn") or "").endswith("::compare"):
+            return False
+        a = call_args(lhs)
+        if len(a) != 3 or strip_all(a[0]).get("iv", strip_all(a[0]).get("v")) != "0":
+            return False
+        if not self._same_ref(call_object(lhs), S) or not self._same_ref(a[2], P):
+            return False
+        sz = strip_all(a[1])
+        return sz.get("k") == "CXXMemberCallExpr" and bool(re.search(r"::(size|length)$", sz.get("fn") or "")) \
+            and self._same_ref(call_object(sz), P)
 
     def _is_starts_with(self, callee):
         """body is `return a.compare(0, b.size(), b) == 0` with a, b the two parameters"""
